@@ -619,6 +619,14 @@ class World:
         self.a_kind[ha] = "view"
         self.a_origin[ha] = self.a_origin.get(src, "caller")
         self.a_born_ro[ha] = not v.flags.writeable
+        if ev.get("ro") and v.flags.writeable:
+            # the caller marks its fresh view read-only: a natively read-only VIEW of writeable memory
+            v.flags.writeable = False
+            sv.flags.writeable = False
+            self.a_orig[ha] = False
+            self.a_kind[ha] = "ro_view"
+            self.a_origin[ha] = "caller_ro_view"
+            self.a_born_ro[ha] = False
         return Outcome("ok")
 
     def ev_wrap(self, ev):
